@@ -278,6 +278,14 @@ def gen_curve(rng, n, tier):
             L.append("%sadd %s %s %s" % (pfx, J(p), J(s), al))
             L.append("%saddm %s %s %s" % (pfx, J(p), E.aff(s, rng, canon=rng.random() < 0.5), al))
             L.append("%seq %s %s" % (pfx, J(p), J(rng.choice([p, s]))))
+        # the all-zero object (a memset point) is an identity representative: equality and addition with it, both orders
+        F = E.F; z000 = F.hex(F.zero) + " " + F.hex(F.zero) + " " + F.hex(F.zero)
+        for p in pool[:4]:
+            L.append("%seq %s %s" % (pfx, J(p), z000)); L.append("%seq %s %s" % (pfx, z000, J(p)))
+            L.append("%sadd %s %s n" % (pfx, J(p), z000)); L.append("%sadd %s %s a" % (pfx, z000, J(p)))
+            L.append("%saddm %s %s n" % (pfx, z000, E.aff(p, rng, canon=False)))
+        L.append("%seq %s %s" % (pfx, z000, z000)); L.append("%sadd %s %s n" % (pfx, z000, z000))
+        L.append("%saddm %s %s a" % (pfx, z000, E.aff(None, rng, canon=False)))
         # same point, different representatives given to add / eq
         for p in pool:
             L.append("%sadd %s %s n" % (pfx, J(p, "rand"), J(p, "rand")))
@@ -335,6 +343,14 @@ def gen_scalar(rng, n, tier):
             p = rng.choice(anyp)
             L.append("%smulc %s %s" % (pfx, E.aff(p, rng), hx(k, cb)))
             L.append("%smulcp %s %s %s" % (pfx, E.jac(p, rng), hx(k, cb), rng.choice(["n", "a"])))
+        # the cofactor-width entry points are for ARBITRARY curve points (they must not use the order-r eigenvalue): large
+        # scalars on points outside the order-r subgroup, including a point of small order
+        small = None
+        while small is None: small = E.mul(R, E.rand_curve_point(rng))
+        for p in (E.rand_curve_point(rng), small):
+            for k in ((1 << cb) - 1, (1 << (cb - 1)) + rng.getrandbits(cb - 2), BLS_X ** 2 + 1 if cb == 128 else (1 << 300) + 7):
+                L.append("%smulc %s %s" % (pfx, E.aff(p, rng), hx(k, cb)))
+                L.append("%smulcp %s %s %s" % (pfx, E.jac(p, rng), hx(k, cb), rng.choice(["n", "a"])))
     for p in [E1.gen, E1.rand_subgroup_point(rng, 32), None]:
         L.append("g1_endo %s %s" % (E1.jac(p, rng), rng.choice(["n", "a"])))
     for p in [E2.gen, E2.rand_subgroup_point(rng, 32), None]:
